@@ -284,14 +284,27 @@ func evalPathStep(step jparse.Node, data reflect.Value, env *environment, lastSt
 		return undefined, err
 	}
 
-	if lastStep && len(results) == 1 && jtypes.IsArray(results[0]) {
-		return results[0], nil
+	if lastStep && len(results) == 1 {
+		res := results[0]
+		if seq, ok := asSequence(res); ok {
+			res = seq.Value()
+		}
+		if jtypes.IsArray(res) {
+			return res, nil
+		}
 	}
 
 	_, isCons := step.(*jparse.ArrayNode)
 	resultSequence := newSequence(len(results))
 
 	for _, v := range results {
+
+		if seq, ok := asSequence(v); ok {
+			// The items of a sequence are the (already
+			// flattened) results for one context item.
+			resultSequence.values = append(resultSequence.values, seq.values...)
+			continue
+		}
 
 		if isCons || !jtypes.IsArray(v) {
 			if v.CanInterface() {
@@ -324,7 +337,7 @@ func evalOverArray(node jparse.Node, data reflect.Value, env *environment) ([]re
 
 	for i, N := 0, data.Len(); i < N; i++ {
 
-		res, err := eval(node, data.Index(i), env)
+		res, err := evalStep(node, data.Index(i), env)
 		if err != nil {
 			return nil, err
 		}
@@ -340,12 +353,36 @@ func evalOverArray(node jparse.Node, data reflect.Value, env *environment) ([]re
 	return results, nil
 }
 
+// evalStep evaluates a path step against one context item.
+// What a field name selects from an item that is an array is
+// handed back as the sequence it is (eval would replace a
+// sequence of one array by that array, and the caller would
+// flatten the array a second time).
+func evalStep(node jparse.Node, item reflect.Value, env *environment) (reflect.Value, error) {
+
+	name, ok := node.(*jparse.NameNode)
+	if !ok {
+		return eval(node, item, env)
+	}
+
+	v, err := evalName(name, item, env)
+	if err != nil {
+		return undefined, err
+	}
+
+	if seq, ok := asSequence(v); ok && seq.Len() == 0 {
+		return undefined, nil
+	}
+
+	return v, nil
+}
+
 func evalOverSequence(node jparse.Node, seq *sequence, env *environment) ([]reflect.Value, error) {
 	var results []reflect.Value
 
 	for i, N := 0, len(seq.values); i < N; i++ {
 
-		res, err := eval(node, reflect.ValueOf(seq.values[i]), env)
+		res, err := evalStep(node, reflect.ValueOf(seq.values[i]), env)
 		if err != nil {
 			return nil, err
 		}
